@@ -111,6 +111,41 @@ PY
   return 0
 }
 
+# fuzz_exec_dir <property> <target> <dir>: every file of <dir> executed once by the instrumented
+# target (ASan + debug assertions + overflow checks), no mutation; a crash becomes a VIOLATION
+fuzz_exec_dir() {
+  local id="$1" target="$2" dir="$3"
+  local bin; bin=$(fuzz_bin "$target")
+  [ -d "$dir" ] || { echo "INCONCLUSIVE property=$id no input directory $dir"; return 2; }
+  local work=/verif/target/fuzz-work/$target-exec
+  rm -rf "$work"; mkdir -p "$work/artifacts"
+  ( cd "$work" && ASAN_OPTIONS=detect_leaks=0:abort_on_error=0 "$bin" -runs=0 -max_len=1000000 -rss_limit_mb=6144 -timeout=120 -artifact_prefix="$work/artifacts/" "$dir" > "$work/run.log" 2>&1 )
+  local rc=$?
+  local n; n=$(ls "$dir" | wc -l)
+  local art; art=$(ls "$work/artifacts" 2>/dev/null | grep -E "^(crash|timeout|oom)-" | head -1)
+  if [ -n "$art" ]; then
+    local kind=${art%%-*}
+    if [ "$kind" = "oom" ]; then echo "INCONCLUSIVE property=$id fuzz target $target hit the RSS limit on a file of $dir"; return 2; fi
+    mkdir -p /verif/replays/$id
+    local dest=/verif/replays/$id/fuzz-$target-$art
+    cp "$work/artifacts/$art" "$dest"
+    echo "VIOLATION property=$id replay=$dest"
+    grep -h "panicked at\|ERROR: AddressSanitizer\|SUMMARY:\|C0[34]" "$work/run.log" | head -4 | cut -c1-300 | sed 's/^/  /'
+    return 1
+  fi
+  if [ $rc -ne 0 ]; then echo "INCONCLUSIVE property=$id fuzz target $target failed on $dir (rc=$rc)"; tail -5 "$work/run.log"; return 2; fi
+  python3 - "$id" "$target" "$n" <<'PY2'
+import json,sys,os
+id,target,n=sys.argv[1:]
+p=f"/verif/target/fuzz-stats-{id}.json"
+d=json.load(open(p)) if os.path.exists(p) else {}
+d[target+":format_extremes"]={"executions":int(n),"engine":"instrumented target over generated files, one execution each, no mutation","sanitizer":"AddressSanitizer + debug assertions + overflow checks"}
+json.dump(d,open(p,"w"))
+PY2
+  echo "[$id] exec  $target over $n files of $dir" >&2
+  return 0
+}
+
 # fuzz_replay <property> <artifact path named fuzz-<target>-...>
 fuzz_replay() {
   local id="$1" file="$2"
